@@ -1,6 +1,6 @@
 (* C03 - obligations about the methods REGENERATED from midgard/data/_time.py (Gen/C03_TimeArith.v). *)
 From Coq Require Import ZArith QArith List Bool String.
-From Verif Require Import Lib.Dyadic Model.C03_TimeArith Gen.C03_TimeArith Model.C03_Classify Proofs.C03_TimeArith.
+From Verif Require Import Lib.Dyadic Model.C03_TimeArith Model.C03_Formats Gen.C03_TimeArith Model.C03_Classify Proofs.C03_TimeArith Proofs.C03_Formats.
 Import ListNotations.
 
 (* the four regenerated methods are, as functions on all rational operands, a member of the model family
@@ -60,4 +60,21 @@ Lemma gen_neg_is_model_l :
 Proof.
   first [ left; apply neg_classified4; vm_compute; reflexivity
         | right; apply neg_classified0; vm_compute; reflexivity ].
+Qed.
+
+(* the bodies of TimeDelta{JD,Sec,Day,DateTime}._to_jds/_from_jds as read from the source compute, on every path and for
+   all rational inputs, the specification's to_jds / from_jds; all unit constants are the doubles nearest to their ideal *)
+Lemma gen_delta_formats_are_model_l :
+  (forall name, In name ["days"; "jd"; "seconds"; "timedelta"]%string ->
+     exists fs, In fs gen_delta_fmt_srcs /\ fs_name fs = name) /\
+  (forall fs, In fs gen_delta_fmt_srcs ->
+     exists f, dfmt_of_name (fs_name fs) = Some f /\
+       (forall e1 e2, In (e1, e2) (fs_to fs) -> forall v v2,
+           (feval e1 v v2 == jd1 (to_jds f v v2))%Q /\ (feval e2 v v2 == jd2 (to_jds f v v2))%Q) /\
+       (forall e, In e (fs_from fs) -> forall a b, (feval e a b == from_jds f (mkJ a b))%Q) /\
+       fs_to fs <> [] /\ fs_from fs <> []).
+Proof.
+  assert (H : fmt_srcs_ok gen_delta_fmt_srcs = true) by (vm_compute; reflexivity).
+  apply fmt_srcs_ok_sound in H. destruct H as [H1 H2]. split; [exact H2|].
+  intros fs Hin. apply fmt_src_ok_sound. apply H1. exact Hin.
 Qed.
